@@ -77,6 +77,14 @@ def main():
     # restore evidence of the clean tree later (caller re-runs checks); store
     dst = os.path.join(V, 'seeded', sid)
     os.makedirs(dst, exist_ok=True)
+    prev = None
+    try: prev = json.load(open(os.path.join(dst, 'meta.json')))
+    except Exception: pass
+    if prev:
+        if not out['confirmed']: out['confirmed'] = prev.get('confirmed', {})
+        hist = prev.get('history', [])
+        hist.append({'caught_by': prev.get('caught_by'), 'checks': {c: {'rc': r['rc'], 'no_failing_input_found': r.get('no_failing_input_found')} for c, r in prev.get('checks', {}).items()}})
+        out['history'] = hist
     shutil.copy(patch, os.path.join(dst, 'patch.diff')); shutil.copy(demo, os.path.join(dst, 'demo.py'))
     out['caught_by'] = [c for c, r in out['checks'].items() if r['rc'] == 1]
     json.dump(out, open(os.path.join(dst, 'meta.json'), 'w'), indent=1)
